@@ -33,6 +33,15 @@ CHECKS = {
     "C11": ("E2+E1", "explicit-state breadth-first search over insert histories applied to live CompactOrderedHashMap objects vs Vec<(K,V)> reference; bounded-exhaustive feature-set enumeration for the state model",
             "All ordered key lists over 7 (quick) / 8 (thorough) keys are reached by BFS from the empty map (13 700 / 109 601 states), every insert/overwrite transition is executed on a live clone and the whole public API compared with the reference; constructors new/collect/from for every distinct-key list and every duplicate-key list, followed by 1-2 further inserts; state models of 0..8(9) features over 16 feature kinds through new/extend/TryFrom/SearchApp::build_search_instance with slot-bijection, initial-state and get/set/add round-trip clauses.",
             "Trusted: Vec<(K,V)> reference; dedup on key order justified by parametricity in V (values are still compared on the concrete path). IndexedEntry observed through Debug.", "§4.11"),
+    "C12": ("E1", "deviation-bounded exhaustive enumeration of malformed batches (all 0/1/2-deviation neighbours of valid queries + structural specials) on the real CompassApp::run inside sandbox worker processes",
+            "14 application configurations (plain, speed table, grid search, vertex/edge matching, load balancer, inject, energy model, both KSP algorithms, combined frontier) x the empty batch, every valid query, every single deviation (field removed or replaced by each of 9 deviant values, every field the configuration reads), every pair of deviations (thorough), structural specials, each alone and before/after a valid query: the worker must not panic, abort, exhaust memory or exceed the deadline; run returns Ok; one well-formed response per query echoing its request; unanswerable queries get an error response; the valid neighbour is served as if alone.",
+            "Trusted: sandbox classification (timeout re-run alone with 4x deadline; RLIMIT_AS). 'Every JSON value' approximated by <=2-deviation neighbours over a 9-value alphabet.", "§4.12"),
+    "C13": ("E1", "bounded-exhaustive enumeration of multigraphs x KSP configurations on the real k-shortest-paths code inside sandbox worker processes with per-case deadlines",
+            "Every enumerated network x {single-via, Yen} x k x similarity x termination criterion x underlying search (k from configuration or query): 1..k routes when reachable, first is least cost (Bellman-Ford), every route passes the C01 structure clauses, is loop free and passes the C03 accumulation oracle, pairwise distinct, pairwise below the similarity threshold (reference cosine), accept-all >= any threshold, terminates within the deadline, never an error for an answerable query.",
+            "Trusted: sandbox classification of hangs; reference similarity. Yen's quick tier uses a covering half of its configuration product (its hanging cases cost a full timeout each).", "§4.13"),
+    "C17": ("E1", "bounded-exhaustive enumeration of grid-search sections on the real plugin vs reference Cartesian product",
+            "1-3 grid fields x sizes 1-3(4) x element kinds (scalar, object with 1-2 keys, mixed) x every key order x extra fields x section position, through GridSearchPlugin::process and apply_input_plugins: canonical multiset of outputs equals the reference product, count = product of sizes, no grid key left, extras preserved, pass-through unchanged.",
+            "Trusted: reference product (props/c17.rs). Object-valued choices use disjoint keys.", "§4.17"),
     "C18": ("E1", "exhaustive enumeration of all digraphs up to n vertices on the real code vs Floyd-Warshall reference",
             "All 2^(n^2) digraphs with self loops for n<=4 (quick) / n<=5 (thorough), all multiplicity<=2 multigraphs on 3 vertices and structured families up to 60 vertices are run through the real component analysis and compared with mutual-reachability classes.",
             "Trusted: Floyd-Warshall reference (refmodel/graph.rs). Graphs beyond 5 vertices only via structured families.", "§4.18"),
